@@ -1244,9 +1244,13 @@ func (p *asmProg) atReturn(b int, a *AbsState, ins *asmInstr) {
 		return "result = " + r.Str(p.tab) + "; max(result - len(dst)) = " + mx.String()
 	})
 	// R04.2: the whole source was consumed
-	if si, ok := a.vals["SI"]; ok {
+	{
+		si, ok := a.vals["SI"]
 		end := p.g["src_base"].Add(p.g["src_len"])
-		p.coll.check("consumed", p.cs.String()+"|"+p.blockName(b)+"#source-consumed", p.pos(ins.line), "on success the read cursor is exactly at the end of the source (no trailing bytes accepted, nothing read past the end)", a.st.entailsEq(si, end), func() string {
+		p.coll.check("consumed", p.cs.String()+"|"+p.blockName(b)+"#source-consumed", p.pos(ins.line), "on success the read cursor is exactly at the end of the source (no trailing bytes accepted, nothing read past the end)", ok && a.st.entailsEq(si, end), func() string {
+			if !ok {
+				return "the value of the read cursor SI is not known in this state"
+			}
 			return "SI = " + si.Str(p.tab) + ", src end = " + end.Str(p.tab)
 		})
 	}
@@ -1321,7 +1325,10 @@ func (p *asmProg) computeLive() {
 				for _, r := range asmRegs {
 					d[r] = true
 				}
-			case isJump(ins.op) || ins.op == "RET":
+			case ins.op == "RET":
+				// the consumption obligation at a success return speaks about the read cursor: it must survive merges
+				addUse("SI")
+			case isJump(ins.op):
 			case len(ins.args) == 2:
 				src, dst := ins.args[0], ins.args[1]
 				for _, r := range regsOf(src) {
